@@ -2,6 +2,7 @@
   Line protocol for the codec model (C07, C12).
 -/
 import Driver.Common
+import MocVerif.Model.Fits
 import MocVerif.Model.Codec
 
 namespace Drv
@@ -40,6 +41,12 @@ def stepCodec (toks : List String) : Option String :=
     -- the JSON document reduced to its token stream (cells only), in the ASCII token syntax
     let q ← qtyOf q; let w ← w.toNat?; let d ← d.toNat?; let rs ← parseRngs rs
     pure (hexOfString (encodeText d (cellItemsOf q w d rs)))
+  | ["fits_file", q, w, d, rs] => do
+    -- the WHOLE file (two header blocks, data unit, padding): length and FNV-1a of the model's bytes
+    let q ← qtyOf q; let w ← w.toNat?; let d ← d.toNat?; let rs ← parseRngs rs
+    let bytes := Moc.Fits.rangeFile q w d rs
+    let h := bytes.foldl (fun h b => ((h ^^^ b) * 1099511628211) % 2 ^ 64) 14695981039346656037
+    pure s!"{bytes.length}:{h}"
   | ["fits_payload", w, rs] => do
     let w ← w.toNat?; let rs ← parseRngs rs
     let bytes := (encodeWords rs).flatMap (toBE (w / 8))
